@@ -120,6 +120,14 @@ def default_wall(inset=0.2, slanted=False, mirror=False, clockwise=False):
     return w
 
 
+def limiter_wall(face=1.664):
+    """the rectangular wall with a limiter on the outboard midplane whose face lies inside the main-chamber scrape-off layer of the
+    lsn family (the outermost cell-centre surface of the campaign grids reaches R = 1.672 there): flux surfaces beyond the face are cut between the X-point ends of
+    the core region, far from the targets"""
+    rmin, rmax, zmin, zmax = 1.2, 1.8, -0.5, 0.5
+    return [(rmin, zmin), (rmin, zmax), (rmax, zmax), (rmax, 0.30), (face, 0.25), (face, -0.22), (rmax, -0.27), (rmax, zmin)]
+
+
 def quiet():
     return contextlib.redirect_stdout(io.StringIO())
 
